@@ -18,6 +18,7 @@ import (
 	"sort"
 	"strings"
 	"sync"
+	"sync/atomic"
 	"time"
 
 	"github.com/kelindar/column"
@@ -83,17 +84,43 @@ var persistProfile = Profile{Name: "persist", Txns: 8, KeyedPct: 0, SeedPct: 50,
 // file ends with a commit log.  Returns the file, the length of its state part, and the dumps
 // the file may legitimately restore to.
 func (w *World) snapshotWithTail(tail int) (file []byte, stateLen int, allowed []dumpT, err error) {
+	return w.snapshotWithHeadTail(0, tail)
+}
+
+// snapshotWithHeadTail: [head] transactions commit after the recorder was installed and before the
+// first block is read (they are in the state AND in the recorded log: Restore must skip them),
+// [tail] transactions after the last block was read (only in the log: Restore must replay them)
+func (w *World) snapshotWithHeadTail(head, tail int) (file []byte, stateLen int, allowed []dumpT, err error) {
 	var buf bytes.Buffer
 	cw := &countingWriter{w: &buf}
 	d0 := w.dumpOf(w.coll)
 	allowed = append(allowed, d0)
 	prev := d0
+	var headRow uint32
+	var headErr error
 	column.VerifHook.Store(func(point string, chunk uint32) {
 		switch point {
+		case "s.open":
+			if head > 0 {
+				for i := 0; i < head; i++ {
+					w.runTxn()
+				}
+				// a commit with row markers that Restore must SKIP (it is in the state already) ...
+				headRow, headErr = w.coll.Insert(func(r column.Row) error { return nil })
+				d0 = w.dumpOf(w.coll)
+				allowed = []dumpT{d0}
+				prev = d0
+			}
 		case "s.close":
 			for i := 0; i < tail; i++ {
 				before := len(w.logger.commits)
-				w.runTxn() // observe() drains the logger; collect the blocks from the stats instead
+				if head > 0 && headErr == nil && i == 0 {
+					// ... followed by one with markers of its own that Restore must REPLAY: the row the
+					// skipped commit inserted is deleted again (the world's generator does not know it)
+					w.coll.DeleteAt(headRow)
+				} else {
+					w.runTxn() // observe() drains the logger; collect the blocks from the stats instead
+				}
 				_ = before
 				cur := w.dumpOf(w.coll)
 				// the transaction may have produced several commits (one per block, ascending):
@@ -227,7 +254,12 @@ func cmdTrunc(args []string) {
 			w.runTxn()
 		}
 		tail := w.rng.Intn(4)
-		file, stateLen, allowed, err := w.snapshotWithTail(tail)
+		head := 0
+		if i%2 == 1 {
+			head, tail = 1+w.rng.Intn(2), 1+w.rng.Intn(3)
+		}
+		s.Extra["head_txns"] += head
+		file, stateLen, allowed, err := w.snapshotWithHeadTail(head, tail)
 		if err != nil {
 			s.Failures = append(s.Failures, fmt.Sprintf("file %d: snapshot failed: %v", i, err))
 			w.close()
@@ -236,6 +268,11 @@ func cmdTrunc(args []string) {
 		s.Files++
 		s.Sizes = append(s.Sizes, len(file))
 		s.Extra["tail_txns"] += tail
+		// commits beside the snapshot: what it restores to is C08's concern as much as C13's
+		during := ""
+		if head+tail > 0 {
+			during = "[C08,C13] "
+		}
 		last := -1
 		for _, k := range cutPoints(w.rng, len(file), stateLen, *every) {
 			o := w.tryRestore(file[:k])
@@ -256,7 +293,7 @@ func cmdTrunc(args []string) {
 					}
 				}
 				if at < 0 {
-					s.Failures = append(s.Failures, fmt.Sprintf("seed %d file %d cut %d/%d (state part %d bytes): Restore succeeded with a state that is no commit boundary of the original (%d rows, count %d)",
+					s.Failures = append(s.Failures, during+fmt.Sprintf("seed %d file %d cut %d/%d (state part %d bytes): Restore succeeded with a state that is no commit boundary of the original (%d rows, count %d)",
 						*seed, i, k, len(file), stateLen, len(o.dump.rows), o.dump.count))
 				} else if at < last {
 					s.Failures = append(s.Failures, fmt.Sprintf("seed %d file %d cut %d: a longer prefix restored an older state", *seed, i, k))
@@ -313,7 +350,7 @@ func cmdTrunc(args []string) {
 		s.Extra["writes_after_failed_restore"] += probed
 		// the complete file must restore to the final state
 		if o := w.tryRestore(file); o.err != nil || !sameDump(o.dump, allowed[len(allowed)-1]) {
-			s.Failures = append(s.Failures, fmt.Sprintf("seed %d file %d: the complete file does not restore to the final state (err=%v)", *seed, i, o.err))
+			s.Failures = append(s.Failures, during+fmt.Sprintf("seed %d file %d: the complete file (%d transactions committed while the snapshot was taken, %d of them before the blocks were read) does not restore to the final state (err=%v)", *seed, i, head+tail, head, o.err))
 		}
 		if len(s.Samples) < 2 {
 			s.Samples = append(s.Samples, fmt.Sprintf("file %d: %d bytes, state part %d, %d tail transactions, %d allowed states", i, len(file), stateLen, tail, len(allowed)))
@@ -607,6 +644,8 @@ type faultWriter struct {
 	forever  bool
 	calls, n int
 	failed   int
+	inCopy   *atomic.Bool // set by the s.copy hook: fail from the copy stage on (nil: not used)
+	copySkip int          // bytes of the copy stage still accepted before the failure
 }
 
 var errDisk = errors.New("injected write failure")
@@ -783,6 +822,16 @@ func bigFault(s *persistSummary, cases *[]string, seed uint64, dense bool) {
 func (f *faultWriter) Write(p []byte) (int, error) {
 	call := f.calls
 	f.calls++
+	if f.inCopy != nil && f.inCopy.Load() {
+		// the destination starts failing once the snapshot has reached its copy stage (the recorded
+		// commits): after skip more bytes, once or forever
+		if f.copySkip > 0 && len(p) <= f.copySkip {
+			f.copySkip -= len(p)
+		} else if f.forever || f.failed == 0 {
+			f.failed++
+			return 0, errDisk
+		}
+	}
 	trip := (f.failCall >= 0 && (call == f.failCall || (f.forever && call > f.failCall))) ||
 		(f.failByte >= 0 && f.n+len(p) > f.failByte && (f.forever || f.failed == 0))
 	if trip {
@@ -915,6 +964,45 @@ func cmdFault(args []string) {
 			}
 			if len(s.Failures) > 12 {
 				break
+			}
+		}
+		// the destination fails in the COPY stage - after the state was written, while the commits
+		// recorded during the snapshot are handed over; a transaction that certainly commits runs
+		// while the recorder is installed, so there is something to copy
+		for k := 0; k < 14 && len(s.Failures) <= 12; k++ {
+			flag := &atomic.Bool{}
+			fw := &faultWriter{w: io.Discard, failCall: -1, failByte: -1, forever: k%2 == 0, inCopy: flag, copySkip: []int{0, 0, 1, 5, 30}[k%5]}
+			column.VerifHook.Store(func(point string, chunk uint32) {
+				switch point {
+				case "s.close":
+					w.coll.Insert(func(r column.Row) error { return nil })
+				case "s.copy":
+					flag.Store(true)
+				}
+			})
+			err := w.coll.Snapshot(fw)
+			removeHook()
+			s.Cuts++
+			s.Extra["copy_stage_plans"]++
+			desc := fmt.Sprintf("seed %d collection %d fail(in the copy stage after %d bytes, forever=%v)", *seed, i, []int{0, 0, 1, 5, 30}[k%5], k%2 == 0)
+			if fw.failed > 0 && err == nil {
+				s.Failures = append(s.Failures, desc+": the writer failed but Snapshot returned nil")
+			}
+			if fw.failed == 0 && err != nil {
+				s.Failures = append(s.Failures, desc+": Snapshot failed although the writer never did: "+err.Error())
+			}
+			if fw.failed > 0 {
+				s.Extra["copy_stage_failures"]++
+			}
+			rec := w.coll.VerifRecording()
+			if rec {
+				s.Failures = append(s.Failures, desc+": the snapshot recorder is still installed after Snapshot returned")
+			}
+			cases = append(cases, fmt.Sprintf("(%v, %v, %v)", fw.failed > 0, err != nil, rec))
+			if err != nil {
+				s.Errors++
+			} else {
+				s.Clean++
 			}
 		}
 		// leaks: descriptors and temporary files, after the collector had its chance
